@@ -66,14 +66,15 @@ func boundaryVal(r *rand.Rand) int32 {
 }
 
 type emitter struct {
-	r     *rand.Rand
-	c     genCfg
-	sb    strings.Builder
-	lbl   int
-	count int
-	dr    []string
-	ar    []string
-	hot   []int // hot line bases
+	r      *rand.Rand
+	c      genCfg
+	sb     strings.Builder
+	lbl    int
+	count  int
+	dr     []string
+	ar     []string
+	hot    []int  // hot line bases
+	shared string // label of a shared subroutine (called from several sites, returns through jalr t6)
 }
 
 func (e *emitter) emit(format string, a ...any) {
@@ -247,9 +248,15 @@ func (e *emitter) body(n int, depth int, inLoop bool) {
 			}
 			e.body(1+e.r.Intn(3), depth+1, inLoop)
 			e.label(l)
+		case e.c.Jumps && k < 19 && depth < 3 && e.shared != "":
+			// call of the shared subroutine: the same jalr returns to a different site each time
+			e.emit("jal t6, %s", e.shared)
 		case e.c.Jumps && k < 17 && depth < 2:
 			// call / return through jalr
 			link := []string{"t5", "t6"}[e.r.Intn(2)]
+			if e.shared != "" {
+				link = "t5"
+			}
 			if e.c.UseRa && e.r.Intn(3) == 0 {
 				link = "ra"
 			}
@@ -322,6 +329,16 @@ func (e *emitter) initState() ([32]int32, []int8) {
 func genProgram(r *rand.Rand, c genCfg) caseInput {
 	e := newEmitter(r, c)
 	regs, mem := e.initState()
+	if c.Jumps && r.Intn(3) == 0 {
+		// a shared subroutine at the top, jumped over on entry
+		f, over := e.newLabel(), e.newLabel()
+		e.emit("j %s", over)
+		e.label(f)
+		e.body(1+r.Intn(4), 3, false)
+		e.emit("jalr zero, t6, 0")
+		e.label(over)
+		e.shared = f
+	}
 	e.body(c.N, 0, false)
 	end := e.r.Intn(6)
 	switch {
